@@ -82,6 +82,12 @@ CLASSES = {
     'UndefinedSequenceDescriptor': dict(bases=['Descriptor'], module='pybufrkit.descriptors', fields={}),
 }
 
+CLASSES.update({
+    'BaseTable': dict(bases=[], module='pybufrkit.tables', fields={}),
+    'TableB': dict(bases=['BaseTable'], module='pybufrkit.tables', fields={'descriptors': DictT(INT, Ref('ElementDescriptor'))}),
+    'TableD': dict(bases=['BaseTable'], module='pybufrkit.tables', fields={'descriptors': DictT(INT, Ref('SequenceDescriptor'))}),
+})
+
 # ---- coder state ------------------------------------------------------------------------------
 BSR = TupleT(INT, INT, INT)
 BSR.names = ('nbits_increment', 'scale_increment', 'refval_factor')
